@@ -145,6 +145,15 @@ def scenarios(tier):
             sc['msgs'] = [msg(0x10, 'p2p', 0x20, seg * 2 - 2),
                           dict(msg(0x10, 'p2p', 0x20, seg * 2 - 1, pat=1), after=nfr, after_dt=3e-4, may_refuse=True)]
             out.append(sc)
+        # a broadcast whose originator answers a frame of another node with its NEXT broadcast from inside the subscriber
+        # callback (receive thread) while its job thread is in the pass that sends the last packet of the first one
+        base = two(dll, 1, 1)
+        bint = 0.05 if dll == 'j1939-21' else 0.01
+        sc = dict(base, late_ok=True)
+        sc['msgs'] = [msg(0x10, 'bam2', 0x31, seg * 2 - 1),
+                      dict(msg(0x20, 'p2p', 0x10, 8, pat=2), after=2, after_dt=bint + 0.0002),
+                      dict(msg(0x10, 'bam2', 0x31, seg * 2 - 2, pat=1), on={'tag': 'A.ca10', 'kind': 'data'}, may_refuse=True)]
+        out.append(sc)
         # pre-emption while timeouts are being served: the same transfers with every single frame lost
         for (wa, wb) in (((1, 1),) if quick else ((1, 1), (2, 2), (255, 255))):
             npk = 2 if quick else 3
